@@ -421,3 +421,9 @@ func GenAnyStmt(t *rapid.T, kind StoreKind, pairs []Pair, exotic bool) *Stmt {
 		return GenSelect(t, kind, pairs, SelOpts{Aliases: true, Aggregate: 1, Order: true, Limit: true, Exotic: exotic})
 	}
 }
+
+// ForceOrder adds an ORDER BY clause when the statement has an orderable field.
+func ForceOrder(t *rapid.T, st *Stmt) {
+	st.Order = nil
+	genOrder(t, st)
+}
